@@ -33,7 +33,7 @@ RULE = ('random frame arrays: 1..6 channels (distinct str identities, some wider
 
 ASSUMPTIONS = [
     'channel identities are str (RP66V1/BIT/DAT/LAS callers all pass str); int/bytes identities are API-only and recorded as a defect candidate in notes/C10.md',
-    'identities/units are non-empty-or-blank-free tokens without " ", ".", ":" that do not start with "#" or "~" and are not read as a number/yes/no by the reader (those are finding C09-numeric-looking-mnemonic-retyped)',
+    'identities/units are non-empty-or-blank-free tokens without " ", ".", ":" that do not start with "#" or "~" and are not read as a number/yes/no by the reader (such names are run separately as a repaired class: they must read back under their name)',
     'no NaN/inf values (the reader maps nan/inf text to float nan/inf; "within half a unit" is meaningless there)',
     'X axis values are distinct after printing (the reader rejects duplicate X values); colliding cases are counted and only checked at text level',
     'Python float(text) is correctly rounded (checked: |readback - printed| <= ulp/2)',
@@ -44,7 +44,6 @@ TRUSTED = ['modelled, not verified: CPython float.__format__ / int.__format__ (r
 
 ANCHOR_FILES = ['src/TotalDepth/LAS/core/WriteLAS.py', 'src/TotalDepth/LAS/core/LASRead.py', 'src/TotalDepth/common/data_table.py',
                 'src/TotalDepth/common/LogPass.py']
-F_RETYPED = 'C09-numeric-looking-mnemonic-retyped'
 EXTRA_LEAN_TARGETS = ['drv_c09']      # the reader model used by the end-to-end stream
 
 HEADER = ('~Version Information Section\nVERS. 2.0 : CWLS\nWRAP. NO : one line per frame\n'
@@ -591,8 +590,8 @@ def probe_format(ctx):
 
 
 def known_name_cases(ctx):
-    """C09-numeric-looking-mnemonic-retyped (was F-C10-1): a channel whose name the reader converts to a number / bool
-    does not read back under its name.  The value-placement part (NO/YES/0/1 aliasing a channel index) is repaired in
+    """Channels named like a value (was F-C10-1 / C09-numeric-looking-mnemonic-retyped, repaired by keeping mnemonic and unit
+    as text in line_to_sect_line): they must read back under their name with their values.  The value-placement part (NO/YES/0/1 aliasing a channel index) is repaired in
     /repo: wrong values or a reader exception on these cases are UNLISTED failures."""
     for name in ('NO', 'Yes', '123', '1E3', 'nan', '1'):
         case = {'chans': [{'ident': 'DEPT', 'units': 'm', 'units_bytes': False, 'long': 'Depth', 'long_bytes': False, 'dtype': 'float64',
@@ -628,7 +627,7 @@ def run_known(ctx, case):
         return False
     if [repr(g) for g in got] != [repr(w) for w in want]:
         ctx.fail(case, f'read-back channel names {got!r}, expected {want!r} '
-                       f'(the reader converts mnemonics with string_to_value)', finding=F_RETYPED)
+                       f'(a channel named like a value must read back under its name: repaired class)')
         return False
     return True
 
@@ -717,7 +716,7 @@ def run(ctx):
         probe_format(ctx)
     else:
         ctx.note('model driver not available: correspondence skipped')
-    ctx.note('excluded: NaN/inf values; identities read as numbers/yes/no by the reader are run separately as finding C09-numeric-looking-mnemonic-retyped; '
+    ctx.note('excluded: NaN/inf values; identities read as numbers/yes/no by the reader are run separately (repaired class, they must read back under their name); '
              'int/bytes identities (API only) are described in notes/C10.md')
 
 
